@@ -7,6 +7,13 @@
 From PV Require Import Base Crit gen.TermsTable Terms gen.C15Table Replace ReplaceCorr.
 From PV Require Import lemmas.ReplaceEqs lemmas.ReplaceLemmas lemmas.ReplaceStmt.
 
+Notation rep := (Replace.rep tcfg).
+Notation covered := (Replace.covered tcfg).
+Notation rep_wt := (Replace.rep_wt tcfg).
+Notation cov_wt := (Replace.cov_wt tcfg).
+Notation rep_stmt := (Replace.rep_stmt tcfg).
+Notation cov_stmt := (Replace.cov_stmt tcfg).
+
 (* ---- the property as worded: for every term / wrapper term / statement, replace = built with B; other tables untouched *)
 Definition C15_full_statement : Prop :=
   forall A B : tref,
@@ -15,66 +22,92 @@ Definition C15_full_statement : Prop :=
     /\ (forall s, rep_stmt A B s = Ok (subst_stmt A B s))
     /\ (forall C t, tref_eqb C A = false -> tref_eqb C B = false -> count C (rep A B t) = count C t).
 
-(* The faithful model refutes it: -a.x keeps table a. *)
+(* The faithful model still refutes it: a sub-query in FROM is compared with ==, never entered, and keeps table a. *)
+Definition sub_from : stmt :=
+  with_ (stmt0 false) [SrcSub qa (Some "sq")] None None [] [WT (fc "y")] [] [] None None [] None [] [] [] [] [].
+Definition sub_join : stmt := join_stmt (JOn "" (SrcSub qa (Some "j0")) (WT (cc "k"))).
+Definition sub_cross : stmt := join_stmt (JCross (SrcSub qa (Some "cj"))).
 Theorem C15_refuted : ~ C15_full_statement.
 Proof.
-  intro H. destruct (H wa wb) as [Ht _].
-  specialize (Ht (TNeg (fa "x")) eq_refl). vm_compute in Ht. discriminate Ht.
+  intro H. destruct (H wa wb) as [_ [_ [Hs _]]].
+  specialize (Hs sub_from). vm_compute in Hs. discriminate Hs.
 Qed.
 Print Assumptions C15_refuted.
 
+(* ... but since the fix commits it HOLDS for every term of the shared expression AST (any depth, all tables): every
+   slot of every expression class is visited today (read off the extracted table; dropping one breaks this proof). *)
+Theorem C15_holds_on_terms : forall A B t, sub_foreign A t = true ->
+  rep A B t = subst A B t /\ (forall c, render c (rep A B t) = render c (subst A B t)).
+Proof.
+  intros A B t F.
+  assert (E : rep A B t = subst A B t).
+  { apply covered_rep_subst. apply (proj1 (all_visited_covered_all tcfg A eq_refl)). exact F. }
+  rewrite E. split; reflexivity.
+Qed.
+Print Assumptions C15_holds_on_terms.
+
 (* One machine-checked witness per (class, child slot) that the code does not visit -- the list of unvisited slots is
    computed from the extracted table, so a slot that stops being visited needs (and has) a witness too: the code's
-   result renders differently from the object built with b. *)
+   result renders differently from the object built with b.  Today: ValueWrapper.value (the value of a SET pair). *)
 Theorem C15_refuted_every_unvisited_slot : forallb witness_differs unvisited_pairs = true.
 Proof. vm_compute. reflexivity. Qed.
 Print Assumptions C15_refuted_every_unvisited_slot.
 
-(* ... and every visited slot's witness renders like the object built with b; where "visiting" means calling
-   replace_table on an AliasedQuery (WITH) or a Table (plain Join), the result is TypeError. *)
+(* ... and every visited slot's witness renders like the object built with b (or is TypeError where the extracted
+   mode says that a method that does not exist is called -- nowhere, today). *)
 Theorem C15_visited_slots_witnessed : forallb witness_agrees visited_pairs = true.
 Proof. vm_compute. reflexivity. Qed.
 Print Assumptions C15_visited_slots_witnessed.
 
-(* sub-queries are compared with ==, never entered: FROM (sub-query), JOIN (sub-query) ON ..; WITH and cross joins raise *)
-Definition sub_from : stmt :=
-  with_ (stmt0 false) [SrcSub qa (Some "sq")] None None [] [WT (fc "y")] [] [] None None [] None [] [] [] [] [].
-Definition sub_join : stmt := join_stmt (JOn "" (SrcSub qa (Some "j0")) (WT (cc "k"))).
-Theorem C15_refuted_subqueries_and_raises :
+(* sub-queries sitting where the code compares with == are never entered: FROM, JoinOn item, plain Join item *)
+Theorem C15_refuted_subqueries :
   rep_show wa wb (OS sub_from) <> subst_show wa wb (OS sub_from)
   /\ rep_show wa wb (OS sub_join) <> subst_show wa wb (OS sub_join)
-  /\ (forall A B s, vis (skind s) S__with = true -> s_with s <> [] -> rep_stmt A B s = Err "TypeError")
-  /\ rep_stmt wa wb (join_stmt (JCross (SrcTable wc))) = Err "TypeError".
-Proof.
-  split; [vm_compute; discriminate|]. split; [vm_compute; discriminate|]. split; [|vm_compute; reflexivity].
-  intros A B s V W. unfold rep_stmt, rep_withs. rewrite V. destruct (s_with s); [congruence | reflexivity].
-Qed.
-Print Assumptions C15_refuted_subqueries_and_raises.
+  /\ rep_show wa wb (OS sub_cross) <> subst_show wa wb (OS sub_cross).
+Proof. repeat split; vm_compute; discriminate. Qed.
+Print Assumptions C15_refuted_subqueries.
 
-(* ---- the fragment on which the property holds, at any depth (mutual induction over term/tlist/wlist/oterm) ---- *)
-Theorem C15_on_fragment : forall A B t, covered A t = true -> rep A B t = subst A B t.
+(* the TypeError of the code before 11d7c56, kept as a theorem about the generic model: whenever _with is handled by
+   calling replace_table on an AliasedQuery (which has no such method), any non-empty WITH list raises; with today's
+   extracted configuration nothing raises *)
+Theorem C15_with_by_call_raises : forall cf A B s,
+  cvis cf (skind s) S__with = true -> c_with_by_call cf = true -> c_with_ok cf = false -> s_with s <> [] ->
+  Replace.rep_stmt cf A B s = Err "TypeError".
+Proof.
+  intros cf A B s V W K N. unfold Replace.rep_stmt, rep_withs. rewrite V, W, K. destruct (s_with s); [congruence | reflexivity].
+Qed.
+Print Assumptions C15_with_by_call_raises.
+Example C15_no_raise_today :
+  c_with_by_call tcfg = false /\ c_join_by_call tcfg = false
+  /\ (exists s', rep_stmt wa wb (with_ (stmt0 false) [SrcTable wa] None None [("w", qa)] [WT (fa "x")] [] [] None None [] None []
+                                        [JCross (SrcTable wa)] [] [] []) = Ok s'
+                  /\ show_stmt s' = "Q FROM[""b""] INS[] UPD[] WITH[w=SELECT ""k"" FROM ""b""] SEL[""b"".""x""] COL[] VAL[] WHERE[] PRE[] GRP[] HAV[] ORD[] JOIN[Join::""b""] SET[] LBY[] STAR[]").
+Proof. split; [reflexivity|]. split; [reflexivity|]. eexists. split; vm_compute; reflexivity. Qed.
+
+(* ---- the fragment on which the property holds, at any depth, for ANY configuration of visited slots ---- *)
+Theorem C15_on_fragment : forall cf A B t, Replace.covered cf A t = true -> Replace.rep cf A B t = subst A B t.
 Proof. exact covered_rep_subst. Qed.
 Print Assumptions C15_on_fragment.
 
 Theorem C15_on_fragment_render : forall A B t c, covered A t = true -> render c (rep A B t) = render c (subst A B t).
-Proof. intros A B t c H. rewrite (covered_rep_subst A B t H). reflexivity. Qed.
+Proof. intros A B t c H. rewrite (covered_rep_subst tcfg A B t H). reflexivity. Qed.
 Print Assumptions C15_on_fragment_render.
 
 (* the fragment is exact: for B other than A, outside [covered] the code's result is NOT the object built with B *)
-Theorem C15_fragment_exact : forall A B t, tref_eqb B A = false -> sub_foreign A t = true ->
-  (covered A t = true <-> rep A B t = subst A B t).
-Proof. intros A B t H F. exact (covered_iff A B H t F). Qed.
+Theorem C15_fragment_exact : forall cf A B t, tref_eqb B A = false -> sub_foreign A t = true ->
+  (Replace.covered cf A t = true <-> Replace.rep cf A B t = subst A B t).
+Proof. intros cf A B t H F. exact (covered_iff cf A B H t F). Qed.
 Print Assumptions C15_fragment_exact.
 
 (* wrapper terms (FILTER / OVER / EXTRACT / PERIOD / nested criterion / sub-queries as operands) and statements *)
 Theorem C15_on_fragment_wterm : forall A B w c, cov_wt A w = true ->
   rep_wt A B w = subst_wt A B w /\ render_wt c (rep_wt A B w) = render_wt c (subst_wt A B w).
-Proof. intros A B w c H. rewrite (cov_wt_ok A B w H). split; reflexivity. Qed.
+Proof. intros A B w c H. rewrite (cov_wt_ok tcfg A B w H). split; reflexivity. Qed.
 Print Assumptions C15_on_fragment_wterm.
 
 Theorem C15_on_fragment_stmt : forall A B s, cov_stmt A s = true ->
   rep_stmt A B s = Ok (subst_stmt A B s) /\ stmt_after A B s = (dump_stmt (subst_stmt A B s), star_names (subst_stmt A B s)).
-Proof. intros A B s H. unfold stmt_after. rewrite (cov_stmt_ok A B s H). split; reflexivity. Qed.
+Proof. intros A B s H. unfold stmt_after. rewrite (cov_stmt_ok tcfg A B s H). split; reflexivity. Qed.
 Print Assumptions C15_on_fragment_stmt.
 
 (* ---- other tables are untouched, A disappears ---- *)
@@ -82,7 +115,7 @@ Theorem C15_other_tables_untouched : forall A B C t, tref_eqb C A = false ->
   count C (subst A B t) = count C t + (if tref_eqb C B then count A t else 0)
   /\ (tref_eqb C B = false -> count C (rep A B t) = count C t).
 Proof.
-  intros A B C t CA. split; [apply (proj1 (count_subst_all A B C CA)) | intro CB; apply (proj1 (count_rep_all A B C CA CB))].
+  intros A B C t CA. split; [apply (proj1 (count_subst_all A B C CA)) | intro CB; apply (proj1 (count_rep_all tcfg A B C CA CB))].
 Qed.
 Print Assumptions C15_other_tables_untouched.
 
@@ -125,10 +158,16 @@ Example C15_example_stmt :
   /\ snd (stmt_after wa wb ex_stmt) = ["""b"""].
 Proof. vm_compute. repeat split. Qed.
 
-(* outside the fragment: the IN list keeps a although the tested operand is replaced *)
+(* outside the fragment: the value of a SET pair is wrapped in a ValueWrapper, whose replace_table is the no-op *)
 Example C15_example_outside :
+  let s := with_ (stmt0 false) [SrcTable wc] None (Some wa) [] [] [] [] None None [] None [] [] [(fa "c0", WT (fa "y"))] [] [] in
+  cov_stmt wa s = false
+  /\ (exists s', rep_stmt wa wb s = Ok s' /\ s_updates s' = [(TField "c0" (Some wb) None, WT (fa "y"))])
+  /\ s_updates (subst_stmt wa wb s) = [(TField "c0" (Some wb) None, WT (TField "y" (Some wb) None))].
+Proof. vm_compute. split; [reflexivity|]. split; [eexists; split; reflexivity | reflexivity]. Qed.
+
+(* the IN list, which kept a before b9f327b, is inside the fragment now *)
+Example C15_example_in_list :
   let t := TIn (fa "x") (TTuple (TCons (fa "y") (TCons one TNil)) None) false None in
-  covered wa t = false
-  /\ render ns_ctx (rep wa wb t) = Ok """b"".""x"" IN (""a"".""y"",1)"
-  /\ render ns_ctx (subst wa wb t) = Ok """b"".""x"" IN (""b"".""y"",1)".
+  covered wa t = true /\ render ns_ctx (rep wa wb t) = Ok """b"".""x"" IN (""b"".""y"",1)".
 Proof. vm_compute. repeat split. Qed.
